@@ -158,7 +158,7 @@ def dispatch(E, fv, args, kw, st, node):
         if qn and qn in E.reg.contracts:
             c = E.reg.contracts[qn]
             fn, kind, dropped = locate.unwrap(o)
-            if (c.inline or _pure_ctx(st)) and not c.trusted and inspect.isfunction(fn):
+            if (c.inline or (_pure_ctx(st) and not c.functional)) and not c.trusted and inspect.isfunction(fn):
                 yield from call_repo(E, fn, qn, args, kw, st, dropped, node)
             else:
                 yield from apply_contract(E, c, fn if inspect.isfunction(fn) else None, args, kw, st, node)
@@ -181,7 +181,7 @@ def dispatch(E, fv, args, kw, st, node):
         fn, kind, dropped = locate.unwrap(o)
         if inspect.isfunction(fn) and _is_repo(fn):
             qn = f"{fn.__module__}.{fn.__qualname__}"
-            if qn in E.reg.contracts and not E.reg.contracts[qn].inline and not _pure_ctx(st):
+            if qn in E.reg.contracts and not E.reg.contracts[qn].inline and not (_pure_ctx(st) and not E.reg.contracts[qn].functional):
                 yield from apply_contract(E, E.reg.contracts[qn], fn, args, kw, st, node)
             else:
                 yield from call_repo(E, fn, qn, args, kw, st, dropped, node)
@@ -231,23 +231,33 @@ def apply_spec(E, name, args, st):
     if len(vals) != len(ptys):
         raise OutsideSubset(f"spec {name}: arity")
     if sp.body is None or sp.recursive:
-        key = name
+        reads = getattr(sp, "reads", None) or []
+        for rec in E.U.records.values():
+            for fld in reads:
+                fty = E.U.field_ty(rec.qualname, fld)
+                if fty is not None:
+                    E.heap_arr(st, fld, fty)
+        key = (name, tuple(sorted((k, a.get_id()) for k, a in st.heap.items() if k[0] in reads and not _is_base(a))))
         if key not in E.specfns:
             sorts = [E.U.sort(t) for t in ptys]
+            f = z3.Function(E.fresh_name("spec_" + name) if reads else "spec_" + name, *sorts, E.U.sort(rty))
+            E.specfns[key] = f
+            E.wf_function(f, sorts)
             if sp.recursive and sp.body is not None:
-                f = z3.RecFunction("spec_" + name, *sorts, E.U.sort(rty))
-                E.specfns[key] = f
-                E.wf_function(f, sorts)
-                formals = [z3.Const(f"{p}!sp", s) for p, s in zip(sp.params, sorts)]
-                s2 = State()
+                # recursive spec function: uninterpreted + definitional equation, unfolded by the generator at the ground
+                # applications that occur in an obligation (explicit instantiation; z3 does no induction)
+                formals = [z3.Const(f"{p}!sp{next(E.n)}", srt) for p, srt in zip(sp.params, sorts)]
+                s2 = st.copy()
+                s2.pc = []
                 s2.spec = 1
-                s2.env = {p: SVal(fm, t) for p, fm, t in zip(sp.params, formals, ptys)}
+                s2.nofork = 0
+                s2.qvars = []
+                s2.env = {}
+                s2.bound = [{p: SVal(fm, t) for p, fm, t in zip(sp.params, formals, ptys)}]
                 body = E.coerce(E.ev1p(parse_expr(sp.body), s2), rty, s2)
-                z3.RecAddDefinition(f, formals, body.t)
+                E.rec_defs = getattr(E, "rec_defs", [])
+                E.rec_defs.append((f, formals, body.t, list(s2.pc)))
             else:
-                f = z3.Function("spec_" + name, *sorts, E.U.sort(rty))
-                E.specfns[key] = f
-                E.wf_function(f, sorts)
                 for ax in sp.axioms:
                     add_axiom(E, f"spec {name}", ax[0], ax[1])
         f = E.specfns[key]
@@ -462,6 +472,11 @@ def havoc_all(E, st):
         st.ghost[g] = E.fresh(st.ghost[g].ty, "ghost_" + g)
 
 
+def _is_base(arr):
+    """the initial version of a heap field (lazily created, the same constant in every state)"""
+    return z3.is_const(arr) and arr.decl().name().startswith("H0_")
+
+
 def apply_contract_pure(E, c, fn, args, kw, st, node):
     """contract used under a binder / in a specification: the callee is an uninterpreted function of its arguments
     (per heap version) whose contract clauses are asserted universally:  forall args. requires => ensures"""
@@ -473,7 +488,17 @@ def apply_contract_pure(E, c, fn, args, kw, st, node):
     rty = E.U.parse(c.returns) if c.returns else None
     if rty is None or rty is NONE:
         return SVal(None, NONE)
-    hkey = tuple(sorted((k, a.get_id()) for k, a in st.heap.items())) + tuple(sorted((g, v.t.get_id()) for g, v in st.ghost.items()))
+    if c.reads is not None:
+        # touch the fields so that their arrays exist before the snapshot is taken
+        for rec in E.U.records.values():
+            for fld in c.reads:
+                fty = E.U.field_ty(rec.qualname, fld)
+                if fty is not None:
+                    E.heap_arr(st, fld, fty)
+        hkey = tuple(sorted((k, a.get_id()) for k, a in st.heap.items() if k[0] in c.reads and not _is_base(a)))
+    else:
+        hkey = tuple(sorted((k, a.get_id()) for k, a in st.heap.items() if not _is_base(a))) \
+            + tuple(sorted((g, v.t.get_id()) for g, v in st.ghost.items()))
     key = (qn, hkey if not c.pure else ())
     names = [n for n, v in frame.items() if isinstance(v, SVal) and v.t is not None]
     E.pure_cache = getattr(E, "pure_cache", {})
@@ -505,6 +530,15 @@ def apply_contract_pure(E, c, fn, args, kw, st, node):
 
 def apply_contract(E, c, fn, args, kw, st, node, recv_lv=None):
     if st.nofork or st.spec:
+        yield st, apply_contract_pure(E, c, fn, args, kw, st, node)
+        return
+    if c.functional:
+        bound = bind_params(E, fn, c, args, kw, st, c.qualname)
+        frame = _typed_args(E, c, bound, st)
+        for i, r in enumerate(c.requires):
+            g = eval_spec(E, r, st, frame)
+            E.oblige(st, f"call-pre:{c.qualname}#{i}", g, lineno=getattr(node, "lineno", None))
+            st.assume(g)
         yield st, apply_contract_pure(E, c, fn, args, kw, st, node)
         return
     qn = c.qualname
@@ -656,6 +690,8 @@ def _call_repo_pure(E, fdef, qualname, env, st):
     work = st.copy()
     work.pc = list(st.pc)
     work.env = env
+    work.bound = []          # the callee's scope does not see the caller's bound variables
+    work.qvars = []          # branch conditions/facts of the inlined body are collected and merged below
     saved_nofork = work.nofork
     work.nofork = 0
     base = len(work.pc)
